@@ -143,10 +143,15 @@ type c20Proc struct {
 var c20Seq int32
 
 func c20FreeAddr() (string, error) {
+	// The address is probed and released before the proxy binds it, so two probes must never be handed the same one: IP
+	// and port are functions of (pid, sequence number) - another worker process (of this run or of a concurrent one) gets
+	// other addresses - and the port lies below the ephemeral range, where nobody else picks ports.
+	pid := os.Getpid()
 	for i := 0; i < 50; i++ {
 		n := int(atomic.AddInt32(&c20Seq, 1))
-		ip := fmt.Sprintf("127.%d.%d.%d", 224+os.Getpid()%16, 1+(n/250)%250, 1+n%250)
-		ln, err := net.Listen("tcp", ip+":0")
+		ip := fmt.Sprintf("127.%d.%d.%d", 224+pid%31, 1+(pid/31)%250, 1+n%250)
+		port := 20000 + (pid*131+n*7+i*1013)%12000
+		ln, err := net.Listen("tcp", fmt.Sprintf("%s:%d", ip, port))
 		if err != nil {
 			continue
 		}
